@@ -72,6 +72,17 @@ fn boundary_cases() -> Vec<Vec<Entry>> {
             }
         }
     }
+    // two residual commodities of extreme magnitude (each value, and their quotient, representable)
+    for (m1, s1, m2, s2) in [
+        (1_000_000_000_000_000i64, 0u32, 2_000_000_000_000_000i64, 0u32),
+        (1, 15, 2, 15),
+        (5_000_000_000_000_000, 0, 25, 1),
+        (1, 12, 4_000_000_000_000, 0),
+    ] {
+        for (sg1, sg2) in [(1i64, 1i64), (1, -1), (-1, 1), (-1, -1)] {
+            out.push(vec![Entry::Txn(Txn { date: 10, posts: vec![post(0, Some(lit(sg1 * m1, s1, 4))), post(1, Some(lit(sg2 * m2, s2, 2)))] })]);
+        }
+    }
     // multi-commodity cost expression
     {
         let cost = VE::Paren(Box::new(Ex::Bin(
